@@ -14,6 +14,8 @@ namespace ErrModel
 @[simp] theorem classify_barrier : classify k_barrier = .barrier := by decide
 @[simp] theorem classify_barrierPrev : classify k_barrierPrev = .barrierPrev := by decide
 @[simp] theorem classify_join : classify k_join = .join := by decide
+@[simp] theorem classify_grpcStatus : classify k_grpcStatus = .grpcStatus := by decide
+@[simp] theorem classify_gogoStatus : classify k_gogoStatus = .gogoStatus := by decide
 @[simp] theorem classify_pkgWithMessage : classify k_pkgWithMessage = .pkgWithMessage := by decide
 @[simp] theorem classify_pathError : classify k_pathError = .pathError := by decide
 @[simp] theorem classify_linkError : classify k_linkError = .linkError := by decide
